@@ -11,6 +11,7 @@ import (
 	"io"
 	"os"
 	"reflect"
+	"regexp"
 	"sort"
 	"strings"
 	"time"
@@ -170,9 +171,6 @@ func patterns(n int, boundary int, thorough bool) []pattern {
 		out = append(out, p)
 	}
 	for k := 1; k < n; k++ {
-		if !thorough && boundary > 0 && (k < boundary-24 || k > boundary+24) && k > 8 && k < n-8 {
-			continue // quick tier, long streams: the splits next to the boundary and next to both ends
-		}
 		add(pattern{Kind: "split", A: k, C: -1})
 	}
 	maxChunk := n
@@ -180,7 +178,7 @@ func patterns(n int, boundary int, thorough bool) []pattern {
 		maxChunk = 300
 	}
 	for c := 1; c <= maxChunk; c++ {
-		if !thorough && c > 8 && c != 255 && c != 256 && c != 257 && c != n-1 {
+		if !thorough && c > 32 && (c < 254 || c > 258) && c != n-1 {
 			continue
 		}
 		add(pattern{Kind: "chunk", A: c, C: -1})
@@ -321,11 +319,12 @@ type diff struct {
 	Kind string // panic | value-differs | error-differs | position-differs
 	What string
 	Site string
+	Call int // the Decode call that differs (the last one for a position difference or a panic)
 }
 
 func compare(ref, got observed, pooled bool) *diff {
 	if got.panicM != "" {
-		return &diff{"panic", got.panicM, got.site}
+		return &diff{"panic", got.panicM, got.site, len(got.errs)}
 	}
 	n := len(ref.errs)
 	if pooled {
@@ -333,21 +332,21 @@ func compare(ref, got observed, pooled bool) *diff {
 	}
 	for i := 0; i < n; i++ {
 		if i >= len(got.errs) {
-			return &diff{"error-differs", fmt.Sprintf("call %d missing", i), ""}
+			return &diff{"error-differs", fmt.Sprintf("call %d missing", i), "", i}
 		}
 		if ref.errs[i] != got.errs[i] {
 			e := ref.errStr
 			if got.errs[i] {
 				e = got.errStr
 			}
-			return &diff{"error-differs", fmt.Sprintf("Decode call %d: error present in memory: %v, from the reader: %v (%s)", i+1, ref.errs[i], got.errs[i], e), ""}
+			return &diff{"error-differs", fmt.Sprintf("Decode call %d: error present in memory: %v, from the reader: %v (%s)", i+1, ref.errs[i], got.errs[i], e), "", i}
 		}
 		if !ref.errs[i] && ref.vals[i] != got.vals[i] {
-			return &diff{"value-differs", fmt.Sprintf("Decode call %d: in memory %s, from the reader %s", i+1, trunc(ref.vals[i], 160), trunc(got.vals[i], 160)), ""}
+			return &diff{"value-differs", fmt.Sprintf("Decode call %d: in memory %s, from the reader %s", i+1, trunc(ref.vals[i], 160), trunc(got.vals[i], 160)), "", i}
 		}
 	}
 	if !pooled && ref.hasRem && got.hasRem && string(ref.remains) != string(got.remains) {
-		return &diff{"position-differs", fmt.Sprintf("unread rest in memory %q, from the reader %q", trunc(string(ref.remains), 60), trunc(string(got.remains), 60)), ""}
+		return &diff{"position-differs", fmt.Sprintf("unread rest in memory %q, from the reader %q", trunc(string(ref.remains), 60), trunc(string(got.remains), 60)), "", n - 1}
 	}
 	return nil
 }
@@ -362,16 +361,18 @@ func trunc(s string, n int) string {
 // ---- worker ----
 
 type violRec struct {
-	Case    cse     `json:"case"`
-	Quoted  string  `json:"stream_quoted"`
-	Variant int     `json:"dest_variant"` // 0: the types of the case, 1: interface{} for every call
-	Buf     string  `json:"buffer"`
-	Pattern pattern `json:"pattern"`
-	Kind    string  `json:"kind"`
-	Site    string  `json:"site,omitempty"`
-	What    string  `json:"what"`
-	Count   int64   `json:"count,omitempty"`
-	Pats    int     `json:"pattern_len,omitempty"`
+	Case    cse      `json:"case"`
+	Quoted  string   `json:"stream_quoted"`
+	Variant int      `json:"dest_variant"` // 0: the types of the case, 1: interface{} for every call
+	Buf     string   `json:"buffer"`
+	Pattern pattern  `json:"pattern"`
+	Kind    string   `json:"kind"`
+	Type    string   `json:"type"` // destination type of the Decode call that differs
+	Classes []string `json:"pattern_classes,omitempty"`
+	Site    string   `json:"site,omitempty"`
+	What    string   `json:"what"`
+	Count   int64    `json:"count,omitempty"`
+	Pats    int      `json:"pattern_len,omitempty"`
 }
 
 type job struct {
@@ -388,15 +389,34 @@ type result struct {
 	Sample   string    `json:"sample,omitempty"`
 }
 
+var arrayLenRe = regexp.MustCompile(`\[[0-9]+\]`)
+
+// sig names the failing cell: a panic by its site, a difference by the destination type of the Decode call
+// that differs (array lengths abstracted), for interface{} destinations together with the kind of stream.
+// The fragmentation family is not part of the name: the property quantifies over all of them.
 func sig(v violRec) string {
 	if v.Kind == "panic" {
-		return fmt.Sprintf("C05|panic|at=%s|pattern=%s", v.Site, v.Pattern.class())
+		return fmt.Sprintf("C05|panic|at=%s|%s", v.Site, msgClass(v.What))
 	}
-	k := v.Case.Kind
-	if v.Case.Trunc {
-		k += "+truncated"
+	t := arrayLenRe.ReplaceAllString(v.Type, "[N]")
+	if v.Type == "interface {}" {
+		return fmt.Sprintf("C05|%s|type=interface {}|stream-kind=%s", v.Kind, v.Case.Kind)
 	}
-	return fmt.Sprintf("C05|%s|pattern=%s|stream-kind=%s", v.Kind, v.Pattern.class(), k)
+	return fmt.Sprintf("C05|%s|type=%s", v.Kind, t)
+}
+
+var digitsRe = regexp.MustCompile(`-?[0-9]+`)
+
+func msgClass(msg string) string {
+	msg = strings.TrimPrefix(msg, "runtime error: ")
+	if i := strings.Index(msg, "out of range"); i >= 0 {
+		msg = msg[:i+len("out of range")]
+	}
+	msg = digitsRe.ReplaceAllString(msg, "N")
+	if len(msg) > 60 {
+		msg = msg[:60]
+	}
+	return strings.ReplaceAll(strings.TrimSpace(msg), " ", "_")
 }
 
 func runCases(j job) result {
@@ -436,13 +456,20 @@ func runCases(j job) result {
 					if d == nil {
 						continue
 					}
-					v := violRec{Case: c, Quoted: trunc(fmt.Sprintf("%q", c.Bytes), 400), Variant: variant, Buf: cfg, Pattern: p, Kind: d.Kind, Site: d.Site, What: d.What, Count: 1}
+					call := d.Call
+					if call >= len(c.Types) {
+						call = len(c.Types) - 1
+					}
+					v := violRec{Case: c, Quoted: trunc(fmt.Sprintf("%q", c.Bytes), 400), Variant: variant, Buf: cfg, Pattern: p, Kind: d.Kind, Site: d.Site, What: d.What, Count: 1,
+						Type: destTypes(c, variant)[call].String(), Classes: []string{p.class()}}
 					key := sig(v)
 					if i, ok := byKey[key]; ok {
-						res.Viol[i].Count++
-						if len(c.Bytes) < len(res.Viol[i].Case.Bytes) {
-							v.Count = res.Viol[i].Count
-							res.Viol[i] = v
+						o := &res.Viol[i]
+						o.Count++
+						o.Classes = addClass(o.Classes, p.class())
+						if len(c.Bytes) < len(o.Case.Bytes) {
+							v.Count, v.Classes = o.Count, o.Classes
+							*o = v
 						}
 						continue
 					}
@@ -456,6 +483,17 @@ func runCases(j job) result {
 		}
 	}
 	return res
+}
+
+func addClass(cs []string, c string) []string {
+	for _, x := range cs {
+		if x == c {
+			return cs
+		}
+	}
+	cs = append(cs, c)
+	sort.Strings(cs)
+	return cs
 }
 
 // ---- the case space ----
@@ -555,7 +593,7 @@ func boundaryCases(thorough bool) []cse {
 			return []interface{}{padS(p), uuid.MustParse("01234567-89ab-cdef-0123-456789abcdef")}
 		}},
 	}
-	bounds := []int{256}
+	bounds := []int{256, 512}
 	if thorough {
 		bounds = []int{256, 512, 1024}
 	}
@@ -636,11 +674,8 @@ func buildCases(thorough bool) (cases []cse, info map[string]interface{}) {
 		add(cse{Bytes: b, Types: []string{s.Type.String(), t.Type.String()}, Simple: s.Simple, Kind: streamKind(b)})
 	}
 	n2 := len(cases)
-	// every truncation of the corpus streams (quick: of every fourth stream) and of the sequences
-	for i, s := range cs {
-		if !thorough && i%4 != 0 {
-			continue
-		}
+	// every truncation of the corpus streams
+	for _, s := range cs {
 		for k := 0; k < len(s.Bytes); k++ {
 			add(cse{Bytes: s.Bytes[:k], Types: []string{s.Type.String()}, Simple: s.Simple, Kind: streamKind(s.Bytes), Trunc: true})
 		}
@@ -655,7 +690,7 @@ func buildCases(thorough bool) (cases []cse, info map[string]interface{}) {
 	for _, c := range bc {
 		for _, k := range []int{c.Boundary - 1, c.Boundary, c.Boundary + 1, c.Boundary + 2, len(c.Bytes) - 8} {
 			if !thorough && k != c.Boundary && k != c.Boundary+1 {
-				continue
+				continue // quick: the two cuts at the boundary
 			}
 			if k > 0 && k < len(c.Bytes) {
 				t := c
@@ -754,7 +789,13 @@ func main() {
 				a = &agg{rep: v}
 				aggs[s] = a
 			} else if len(v.Case.Bytes) < len(a.rep.Case.Bytes) || len(v.Case.Bytes) == len(a.rep.Case.Bytes) && string(v.Case.Bytes) < string(a.rep.Case.Bytes) {
+				for _, c := range a.rep.Classes {
+					v.Classes = addClass(v.Classes, c)
+				}
 				a.rep = v
+			}
+			for _, c := range v.Classes {
+				a.rep.Classes = addClass(a.rep.Classes, c)
 			}
 			a.count += v.Count
 		}
@@ -764,11 +805,28 @@ func main() {
 		sigs = append(sigs, s)
 	}
 	sort.Strings(sigs)
+	// root-cause reduction as in C01: a difference at destination type T is reported only if no strict sub-term
+	// type of T shows a difference of the same kind (the sub-term's report covers it)
+	failing := map[string]bool{} // kind|type
+	for _, a := range aggs {
+		failing[a.rep.Kind+"|"+a.rep.Type] = true
+	}
+	derived := 0
 	for _, s := range sigs {
 		a := aggs[s]
 		v := a.rep
-		what := fmt.Sprintf("%s [stream %s (%d bytes, simple=%v) decoded as %v (destination variant %d), buffer %s, reader pattern %s; %d evaluations fail this way]",
-			v.What, v.Quoted, len(v.Case.Bytes), v.Case.Simple, v.Case.Types, v.Variant, v.Buf, v.Pattern, a.count)
+		if t := typeByName[v.Type]; t != nil && v.Kind != "panic" && v.Kind != "process-death" {
+			covered := false
+			for _, st := range iocase.Subterms(t) {
+				covered = covered || failing[v.Kind+"|"+st.String()]
+			}
+			if covered {
+				derived++
+				continue
+			}
+		}
+		what := fmt.Sprintf("%s [stream %s (%d bytes, simple=%v) decoded as %v (destination variant %d), buffer %s, reader pattern %s; %d evaluations fail this way, under pattern families %v]",
+			v.What, v.Quoted, len(v.Case.Bytes), v.Case.Simple, v.Case.Types, v.Variant, v.Buf, v.Pattern, a.count, v.Classes)
 		run.Violate(s, what, v)
 		for k := int64(1); k < a.count && k < 1000000; k++ {
 			run.Violate(s, "", nil)
@@ -780,8 +838,9 @@ func main() {
 	run.Set("samples", samples.List())
 	run.Set("exhaustive", true)
 	run.Set("cases", ncases)
+	run.Set("differences_covered_by_a_subterm_type", derived)
 	run.Set("cases_ending_in_error_in_memory", refErr)
-	info["tier_patterns"] = map[bool]string{true: "every two-way split, every chunk size 1..min(n,300) (+511..513, 1023..1025, n-1), every <=2 deviations (read #j returns 0..3 bytes, j<=6)", false: "two-way splits (long streams: within 24 of the boundary and 8 of the ends), chunk sizes 1..8,255,256,257,n-1, every single deviation"}[thorough]
+	info["tier_patterns"] = map[bool]string{true: "every two-way split, every chunk size 1..min(n,300) (+511..513, 1023..1025, n-1), every <=2 deviations (read #j returns 0..3 bytes, j<=6)", false: "every two-way split, chunk sizes 1..32,254..258,511..513,n-1, every single deviation (read #j returns 0..3 bytes, j<=6)"}[thorough]
 	run.Set("space", info)
 	run.Assumption("scope hypothesis: a refill defect shows on a short valid stream, one of its truncations, or a stream that puts one token of each kind across a 256/512/1024-byte boundary, under a fragmentation with at most two irregular reads")
 	run.Assumption("after a Decode call that ended in an error on both sides, values and the unread rest are not compared (only the presence of the error is): the property fixes them for successful decodes")
